@@ -6,10 +6,24 @@ From Cell2V Require Import Common.Tac Common.ListX Common.AList C12.Model.
 
 (* ---- history functions: what the services have said so far ---- *)
 
-(* service n has been asked "queryretire" (and its ack processed) *)
+(* operation o asks service n "queryretire" - if n can be resolved at that moment *)
 Definition asks (o : op) (n : Z) : bool :=
   match o with OQueryAll => true | OQuery m => Z.eqb m n | _ => false end.
-Definition queried (h : list op) (n : Z) : bool := existsb (fun o => asks o n) h.
+
+(* one pass over the history for service n: (hidden right now?, has been asked while resolvable?) *)
+Definition hq_step (n : Z) (acc : bool * bool) (o : op) : bool * bool :=
+  (match o with
+   | OHide m => if Z.eqb m n then true else fst acc
+   | OShow m => if Z.eqb m n then false else fst acc
+   | _ => fst acc
+   end,
+   snd acc || (asks o n && negb (fst acc))).
+Definition hq (h : list op) (n : Z) : bool * bool := fold_left (hq_step n) h (false, false).
+
+(* GetService(n) is currently made to answer nil *)
+Definition hidden (h : list op) (n : Z) : bool := fst (hq h n).
+(* service n has been asked "queryretire" at a moment it was not hidden (and its ack processed) *)
+Definition queried (h : list op) (n : Z) : bool := snd (hq h n).
 
 (* service n has declared retirement support: it was asked and its answer is "ok" *)
 Definition declared (cfg : config) (h : list op) (n : Z) : bool := answers_ok cfg n && queried h n.
@@ -74,9 +88,10 @@ Definition aev_eqb (a b : aev) : bool :=
 Definition is_kretire (k : kcmd) : bool := match k with KRetire => true | _ => false end.
 Definition is_kquery (k : kcmd) : bool := match k with KQuery => true | _ => false end.
 
-(* every hosted service is among the receivers of "retire" *)
-Definition told (cfg : config) (sends : list (Z * kcmd)) : bool :=
-  forallb (fun n => existsb (fun x => Z.eqb (fst x) n && is_kretire (snd x)) sends) (names cfg).
+(* every hosted service that can be resolved right now is among the receivers of "retire" *)
+Definition told (cfg : config) (h : list op) (sends : list (Z * kcmd)) : bool :=
+  forallb (fun n => hidden h n || existsb (fun x => Z.eqb (fst x) n && is_kretire (snd x)) sends)
+          (names cfg).
 
 (* a reply that names the node state names the state last published *)
 Definition names_state (cur : nstate) (r : reply) : bool :=
@@ -93,10 +108,11 @@ Definition check_op (cfg : config) (h : list op) (cur : nstate) (o : op)
       if is_ok r then
         if is_retire_cmd o then
           (* accepted only while working/retiring and only if every hosted service has
-             declared support; then every hosted service is told, and nobody else *)
+             declared support; then every resolvable hosted service is told, and nobody else
+             (an unresolvable one is skipped - and stays un-retired, see the Retired clause) *)
           (nstate_eqb cur Working || nstate_eqb cur Retiring)
-          && all_declared cfg h && told cfg sends
-          && forallb (fun x => is_kretire (snd x) && hosted cfg (fst x)) sends
+          && all_declared cfg h && told cfg h sends
+          && forallb (fun x => is_kretire (snd x) && hosted cfg (fst x) && negb (hidden h (fst x))) sends
           && list_eqb aev_eqb evs [EPub Retiring]
         else if is_exit_cmd o then
           (* accepted only when retired *)
@@ -107,8 +123,10 @@ Definition check_op (cfg : config) (h : list op) (cur : nstate) (o : op)
         is_nil evs && is_nil sends
   | OQueryAll | OQuery _ =>
       match r with RNone => true | _ => false end && is_nil evs
-      && forallb (fun x => is_kquery (snd x) && hosted cfg (fst x) && asks o (fst x)) sends
+      && forallb (fun x => is_kquery (snd x) && hosted cfg (fst x) && asks o (fst x)
+                           && negb (hidden h (fst x))) sends
   | OSvcCmd _ _ | ONotify _ | OStopDone _ => is_nil sends
+  | OHide _ | OShow _ => match r with RNone => true | _ => false end && is_nil evs && is_nil sends
   end.
 
 (* [check cfg h tr o b]: operation o, issued after history h whose trace was tr, may show b *)
